@@ -11,7 +11,8 @@ from vf import foamdict, hexconv, lattice, util
 ID = "C01"
 BUDGET = {"quick": 4000, "thorough": 120000}
 REQUIRED = ["outcome:success", "outcome:InconsistentGradingsError", "outcome:UndefinedGradingsError", "judged:multigraded-direction",
-            "judged:edge-with-2+-blocks", "judged:wires-vs-written", "judged:second-write", "judged:assembly-with-merged-pair"]
+            "judged:edge-with-2+-blocks", "judged:wires-vs-written", "judged:second-write", "judged:assembly-with-merged-pair",
+            "judged:write-again-after-a-refused-write"]
 MIN_KEYS = 40
 RULE = (
     "random sub-assemblies of a jittered <=3x3x2 lattice (face / edge-only / vertex-only contacts), each block "
@@ -216,6 +217,16 @@ def run_case(ctx, case):
             )
         elif got != outcome:
             ctx.violation(f"wrong-error:{outcome}->{got}", f"predicted {outcome}, got {got}: {err}")
+        else:
+            # history: a script that catches the error and writes the same mesh again gets the same refusal, not a file
+            util.rm(path)
+            got2, err2 = util.write_outcome(mesh, path)
+            ctx.count("judged:write-again-after-a-refused-write")
+            if got2 == "success":
+                ctx.violation(("conflict" if outcome == "InconsistentGradingsError" else "underspecified") + "-written:second-write-after-a-refused-one",
+                              f"the first write raised {got}; the second write of the same mesh produced a dictionary; " + _edge_report(path))
+            elif got2 != got:
+                ctx.violation(f"wrong-error:second-write:{got}->{got2}", f"first write {got}, second write {got2}: {err2}")
         util.rm(path)
         return
     if got != "success":
